@@ -71,6 +71,7 @@ def gen_seq(rng, n, opts):
     ops = ["opts %s %s %s %s %d %s" % (tf(opts[0]), tf(opts[1]), tf(opts[2]), tf(opts[3]), opts[4], tf(opts[5]))]
     keys = [None, 0]
     mutable = []
+    prev_children = []
     natoms = 0
     for _ in range(n):
         r = rng.random()
@@ -89,12 +90,16 @@ def gen_seq(rng, n, opts):
             natoms += 1
         elif r < 0.5:
             cs = [pick() for _ in range(rng.choice([1, 2, 2, 2, 3, 3, 4]))]
+            if prev_children and rng.random() < 0.25:
+                cs = list(rng.choice(prev_children))    # same children as an earlier node (sharing / stale-index hazards)
             nm = rng.choice(["-", "-", "-", str(rng.randrange(1, 5))])
             cp = rng.choice(["-", "-", "-", "-", "t", "f"])
             ops.append("and (%s) %s %s" % (" ".join(k2s(c) for c in cs), nm, cp))
         elif r < 0.8:
             ph = rng.random() < 0.08
             cs = [] if ph and rng.random() < 0.7 else [pick() for _ in range(rng.choice([1, 2, 2, 2, 3, 3, 4]))]
+            if cs and prev_children and rng.random() < 0.3:
+                cs = list(rng.choice(prev_children))
             ro = rng.random() < 0.65
             nm = rng.choice(["-", "-", "-", str(rng.randrange(1, 5))])
             cp = rng.choice(["-", "-", "-", "-", "t", "f"])
@@ -108,6 +113,10 @@ def gen_seq(rng, n, opts):
             k = pick()
             ops.append("name %d %s %s %s" % (rng.randrange(1, 5), k2s(k), rng.choice(["query", "named", "ev+", "ev-", "l1"]), rng.choice("ft")))
         res = apply_op(f, ops[-1])
+        if ops[-1].split()[0] in ("and", "or") and "(" in ops[-1]:
+            kids = pkeys(ops[-1][ops[-1].index("("):ops[-1].index(")") + 1])
+            if kids:
+                prev_children.append(kids)
         if isinstance(res, int) and res != 0 and abs(res) not in [abs(k) for k in keys if k]:
             keys.append(abs(res))
         t = ops[-1].split()
